@@ -213,21 +213,30 @@ func height(t *stree.Tree[Key]) int {
 	if !c.Valid() {
 		return -1
 	}
-	return heightAt(c)
+	return heightAt(c, 0, t.Len())
 }
 
-func heightAt(c *stree.Cursor[Key]) int {
+// walkGuard stops a structure walk that descends deeper than the tree has
+// keys (only possible if Left/Right/Up misbehave); the kit reports the panic.
+func walkGuard(depth, n int) {
+	if depth > n+1 {
+		panic(fmt.Sprintf("structure walk through Left/Right/Up reached depth %d in a tree of %d keys", depth, n))
+	}
+}
+
+func heightAt(c *stree.Cursor[Key], depth, n int) int {
+	walkGuard(depth, n)
 	h := 0
 	if c.HasLeft() {
 		c.Left()
-		if x := heightAt(c) + 1; x > h {
+		if x := heightAt(c, depth+1, n) + 1; x > h {
 			h = x
 		}
 		c.Up()
 	}
 	if c.HasRight() {
 		c.Right()
-		if x := heightAt(c) + 1; x > h {
+		if x := heightAt(c, depth+1, n) + 1; x > h {
 			h = x
 		}
 		c.Up()
@@ -244,7 +253,9 @@ func deepestLeaf(t *stree.Tree[Key]) (Key, int, bool) {
 	var best Key
 	bestD := -1
 	var walk func(d int)
+	n := t.Len()
 	walk = func(d int) {
+		walkGuard(d, n)
 		if d > bestD {
 			bestD, best = d, c.Key()
 		}
@@ -545,12 +556,14 @@ func twoChildKeys(t *stree.Tree[Key]) []int64 {
 	if !c.Valid() {
 		return nil
 	}
-	var walk func()
-	walk = func() {
+	n := t.Len()
+	var walk func(d int)
+	walk = func(d int) {
+		walkGuard(d, n)
 		l, rr := c.HasLeft(), c.HasRight()
 		if l {
 			c.Left()
-			walk()
+			walk(d + 1)
 			c.Up()
 		}
 		if l && rr {
@@ -558,11 +571,11 @@ func twoChildKeys(t *stree.Tree[Key]) []int64 {
 		}
 		if rr {
 			c.Right()
-			walk()
+			walk(d + 1)
 			c.Up()
 		}
 	}
-	walk()
+	walk(0)
 	return out
 }
 
